@@ -246,7 +246,29 @@ where
                     if i >= n {
                         break;
                     }
-                    let out = f(i);
+                    // a panic that escapes a case (e.g. a public getter panicking inside an oracle)
+                    // is an observation, not a reason to lose the whole run
+                    let out = match std::panic::catch_unwind(std::panic::AssertUnwindSafe(|| f(i))) {
+                        Ok(out) => out,
+                        Err(p) => {
+                            let msg = if let Some(s) = p.downcast_ref::<&str>() {
+                                s.to_string()
+                            } else if let Some(s) = p.downcast_ref::<String>() {
+                                s.clone()
+                            } else {
+                                "<non-string panic>".to_string()
+                            };
+                            let mut co = CaseOut::held(i, false);
+                            co.verdict = Verdict::Violated(Box::new(Violation {
+                                rule: "panic".into(),
+                                features: vec!["escaped-the-case".into()],
+                                detail: format!("case {i} panicked outside any guarded call: {msg}"),
+                                witness: J::from(format!("case index {i}")),
+                                replay: format!("{}:{i}", crate::report::current_seed()),
+                            }));
+                            co
+                        }
+                    };
                     local.add(i, out);
                 }
                 total.lock().unwrap().merge(local);
@@ -254,6 +276,16 @@ where
         }
     });
     total.into_inner().unwrap()
+}
+
+static SEED: AtomicU64 = AtomicU64::new(1);
+
+pub fn set_current_seed(s: u64) {
+    SEED.store(s, Ordering::Relaxed);
+}
+
+pub fn current_seed() -> u64 {
+    SEED.load(Ordering::Relaxed)
 }
 
 pub fn workers() -> usize {
